@@ -6,7 +6,7 @@ CONSTANTS
   Promote = TRUE
   MaxDepth = 6
   MinSize = 10
-  Sample = 211
+  Sample = 499
 VIEW View
 INVARIANTS InvOIUsd InvOITokens InvCollateral InvRemoved InvEmit
 CHECK_DEADLOCK FALSE
